@@ -76,11 +76,11 @@ Proof. exact reawait_rejoins. Qed.
 Print Assumptions c15_reawait_rejoins.
 
 (* Run level.  A listener g whose script is `for(;;) co_await e;`, subscribed while the state is alive, and a driver that
-   never discards the collector's result inside a coroutine (ordinary code, or co_await of the result): for EVERY op
+   never discards the collector's result inside a coroutine nor keeps it in a variable (ordinary code, or co_await of the result): for EVERY op
    sequence that follows (any other listeners/callbacks with any scripts arriving and leaving, handle copies and drops,
    pauses), every accepted collector call delivers its value to g inside that very op: g misses none. *)
 Theorem c15_reawait_misses_none : forall g s r ops,
-  alive s = true -> not_ready (queue s) -> get (tab s) g = None ->
+  alive s = true -> not_ready (queue s) -> held s = [] -> get (tab s) g = None ->
   Forall (disc_op (m_coro s)) ops ->
   none_missed g (fst (step s (OSpawn g 0 false r))) ops.
 Proof. exact reawait_misses_none. Qed.
@@ -131,9 +131,9 @@ Proof. vm_compute. repeat split; try reflexivity. intros it [H|[]]. subst it. re
 
 (* non-vacuity of c15_reawait_misses_none: the initial state meets its hypotheses (both driver modes) *)
 Example c15_reawait_nonvacuous : forall coro vd,
-  alive (st0 coro vd) = true /\ not_ready (queue (st0 coro vd)) /\ get (tab (st0 coro vd)) 7 = None /\
+  alive (st0 coro vd) = true /\ not_ready (queue (st0 coro vd)) /\ held (st0 coro vd) = [] /\ get (tab (st0 coro vd)) 7 = None /\
   Forall (disc_op (m_coro (st0 coro vd))) [OSpawn 2 1 true 0; OConnect 3 2; OEmit 0 coro 5; OEmit 2 coro 6; OCopy; ODrop; OEmit 1 coro 8].
 Proof.
-  intros coro vd. split; [reflexivity|]. split; [intros ? []|]. split; [reflexivity|].
+  intros coro vd. split; [reflexivity|]. split; [intros ? []|]. split; [reflexivity|]. split; [reflexivity|].
   destruct coro; (repeat (apply Forall_cons; [cbn; auto|])); apply Forall_nil.
 Qed.
